@@ -100,6 +100,10 @@ class CallMixin(object):
       allargs = list(args) + [kw[k] for k in sorted(kw)]
       yield st, self.pure_app(path, allargs, self.contract.pure[path], st)
       return
+    if self.mode == 'event' and self.contract is not None and path in self.contract.callbacks:
+      # declared observable in this contract (e.g. a constructor whose arguments matter)
+      yield from self.call_opaque(None, args, kw, st, star, dstar, kind='call', label=path)
+      return
     if self.mode == 'event' and path in self.world.contracts and self.world.contracts[path].mode == 'event' \
         and path not in self.contract.inline:
       # another event-mode function (or a recursive call): an observable action labelled by its name
@@ -111,6 +115,8 @@ class CallMixin(object):
       yield from self.call_contract(self.world.contracts[path], args, kw, st)
       return
     if self.contract is not None and path in self.contract.inline:
+      if star is not None or dstar is not None:
+        raise Unsupported('star call of inlined function %s' % path)   # (the starred arguments would be lost)
       fn = self.load_function(path)
       yield from self.inline_call(fn, args, kw, st)
       return
@@ -607,6 +613,8 @@ class CallMixin(object):
           return
         q = self.world.find_method(base.ty.name, meth)
         if q is not None:
+          if star is not None or dstar is not None:
+            raise Unsupported('star call of method %s.%s' % (base.ty.name, meth))   # (the starred arguments would be lost)
           yield from self.call_qualified(q, [base] + list(args), kw, st, self_val=base)
           return
         rt = self.pure_ret_type('method.' + meth)
